@@ -158,7 +158,10 @@ def load(debug_assertions=False, tests=False):
             raw = {c: json.load(open(os.path.join(pre, c + '.json'))) for c in CRATES}
         else:
             raw = dump(debug_assertions, tests)
-        _cache[key] = Facts(raw)
+        F = Facts(raw)
+        from . import inline
+        inline.apply(F)          # new private helpers (not in tables/known_functions.json) are spliced into their callers
+        _cache[key] = F
     return _cache[key]
 
 
